@@ -260,6 +260,7 @@ def main():
         ("get_path(v, 'a.b[1].c')::varchar", "x y"), ("v:a:s::varchar", " Str "), ("v:num::varchar", "42"), ("v:t::varchar", "true"), ("length(v:k::varchar)", 3),
         ("try_parse_json('{bad') is null", True), ("parse_json('[1, 2]')[1]::int", 2), ("array_size(v:arr)", 3), ("array_size(v:a.b)", 5), ("array_size(split('a,b,c', ','))", 3),
         ("split('a,b', ',')[1]::varchar", "b"),
+        ("object_construct('a', object_construct('b', 1, 'c', null))::varchar", '{"a":{"b":1}}'), ("object_construct('a', 1, 'b', null)::varchar", '{"a":1}'), ("object_construct('b', null)::varchar", "{}"),
     ]
     for expr, want in ctx:
         ck.cov["evaluations"] += 2
